@@ -66,10 +66,16 @@ def main():
             rep = checks_sched.run(a.prop, a.tier, a.replay, finish=False)
             if isinstance(rep, int):
                 return rep
-        if kind in (None, "jobdir") and a.prop == "C05":
+        if kind in (None, "jobdir"):
+            # C05: competing launches; C11: the relaunch by a restarted scheduler while the orphan job still runs
             rep = checks_jobdir.run(a.prop, a.tier, a.replay, rep=rep, finish=False)
             if isinstance(rep, int):
                 return rep
+        if a.prop == "C11" and not a.replay:
+            # running the same experiment again in another process must name the same job directories
+            from . import checks_config
+
+            checks_config.hashseeds(rep, 60 if a.tier == "quick" else 600, 17, prop="C11")
         return rep.finish()
     print(f"no check for {a.prop}", file=sys.stderr)
     return 2
